@@ -93,6 +93,11 @@ func buildOverlay(extra map[string][]byte) (map[string][]byte, error) {
 	for d, pkg := range dirs {
 		ov[filepath.Join(repoDir, d, "zz_verif_lib.go")] = []byte(strings.Replace(string(lib), "package PKGNAME", "package "+pkg, 1))
 	}
+	for p := range pruneFns { // declarations that do not type-check against the current tree (prune.go)
+		if b, ok := ov[p]; ok {
+			ov[p] = applyPrune(p, b)
+		}
+	}
 	return ov, nil
 }
 
